@@ -154,41 +154,7 @@ def run(ctx):
 def run_cfg(ctx, p, cfg):
     feats = set(p.meta.get("features", []))
     bg = "background_rotation" in feats
-    with ctx.rule("R1", "shift order", cfg) as r:
-        ro = roles(p)
-        rot = ro["rotate"]
-        pr = rotate_params(p)
-        mv_sites = [c for c in rot.calls(ro["move_file"].path) if rot.in_loop(c.block)]
-        r.require(len(mv_sites) == 1, "one-move-per-iteration", fn=rot, detail="move_file sites inside the shift loop: %d" % len(mv_sites))
-        nx = [c for c in rot.calls(NEXT) if rot.in_loop(c.block)]
-        r.require(len(nx) == 1, "one-loop", fn=rot, detail="iterator steps: %d" % len(nx))
-        if mv_sites and nx:
-            it = nx[0].arg(0)
-            revs = [x for x in walk(it) if x[0] == "call" and x[1] == "core::iter::traits::iterator::Iterator::rev"]
-            rngs = [x for x in walk(it) if x[0] == "agg" and x[1] in ("core::ops::range::Range", "core::ops::range::RangeInclusive")]
-            r.require(len(revs) == 1 and len(rngs) == 1 and any(y is rngs[0] or y == rngs[0] for y in walk(revs[0])), "reversed-range", fn=rot, site=nx[0].at,
-                      detail="loop iterates %s" % show(it, 6),
-                      fail_detail="the shift loop does not iterate a reversed range (oldest archive must move first): %s" % show(it, 6))
-            ity = nx[0].t.get("arg_tys", [""])[0]
-            r.require("Rev<" in ity and "Range<u32>" in ity, "iterator-type", fn=rot, detail="iterator type %s" % ity)
-            c = mv_sites[0]
-            item = None
-            for x in walk(c.arg(0)):
-                if x[0] == "as" and x[2] == "Some" and strip(x[1])[0] == "call" and strip(x[1])[1] == NEXT:
-                    item = ("field", x, "0")
-            src, dst = index_of(c.arg(0)), index_of(c.arg(1))
-            r.require(src is not None and dst is not None, "paths-from-pattern", fn=rot, site=c.at, detail="src/dst are pattern.replace(\"{}\", index)")
-            if src and dst:
-                vars_ = {"i": deep_strip(item)} if item else {}
-                ls, ld = linear(src[0], vars_), linear(dst[0], vars_)
-                r.require(ls == {"i": 1}, "src-is-index-i", fn=rot, site=c.at, detail="source index %s -> %s" % (show(src[0], 4), ls))
-                r.require(ld == {"i": 1, 1: 1}, "dst-is-index-i-plus-1", fn=rot, site=c.at, detail="destination index %s -> %s" % (show(dst[0], 4), ld))
-                patt = ("param", pr["pattern"])
-                r.require(src[1] == patt and dst[1] == patt and src[2] == ("const", "str", "{}") and dst[2] == ("const", "str", "{}"), "same-pattern-and-placeholder", fn=rot,
-                          detail="both sides substitute \"{}\" in the roller's pattern")
-                r.require(any(x[0] == "call" and x[1] == EXPAND for x in walk(c.arg(0))) and any(x[0] == "call" and x[1] == EXPAND for x in walk(c.arg(1))), "both-expanded", fn=rot,
-                          detail="src and dst pass through expand_env_vars")
-            r.require(common.result_is_checked(rot, c), "move-error-propagated", fn=rot, site=c.at, detail="a failing shift step aborts the rotation with its error")
+    rule_shift_order(ctx, p, cfg, "R1")
 
     with ctx.rule("R2", "range", cfg) as r:
         ro = roles(p)
@@ -466,3 +432,42 @@ def _count_guard_dominates_rotate(p):
                 spawns = [c for c in f.calls() if any(x[0] == "closure" for a in c.arg_exprs() for x in walk(a))]
                 return all(c.block not in zr or c.block in f.reach(si.target_of(False), include_src=True) and c.block not in (zr - f.reach(si.target_of(False), include_src=True)) for c in direct + spawns)
     return False
+
+
+def rule_shift_order(ctx, p, cfg, rid="R1"):
+    with ctx.rule(rid, "shift order", cfg) as r:
+        ro = roles(p)
+        rot = ro["rotate"]
+        pr = rotate_params(p)
+        mv_sites = [c for c in rot.calls(ro["move_file"].path) if rot.in_loop(c.block)]
+        r.require(len(mv_sites) == 1, "one-move-per-iteration", fn=rot, detail="move_file sites inside the shift loop: %d" % len(mv_sites))
+        nx = [c for c in rot.calls(NEXT) if rot.in_loop(c.block)]
+        r.require(len(nx) == 1, "one-loop", fn=rot, detail="iterator steps: %d" % len(nx))
+        if mv_sites and nx:
+            it = nx[0].arg(0)
+            revs = [x for x in walk(it) if x[0] == "call" and x[1] == "core::iter::traits::iterator::Iterator::rev"]
+            rngs = [x for x in walk(it) if x[0] == "agg" and x[1] in ("core::ops::range::Range", "core::ops::range::RangeInclusive")]
+            r.require(len(revs) == 1 and len(rngs) == 1 and any(y is rngs[0] or y == rngs[0] for y in walk(revs[0])), "reversed-range", fn=rot, site=nx[0].at,
+                      detail="loop iterates %s" % show(it, 6),
+                      fail_detail="the shift loop does not iterate a reversed range (oldest archive must move first): %s" % show(it, 6))
+            ity = nx[0].t.get("arg_tys", [""])[0]
+            r.require("Rev<" in ity and "Range<u32>" in ity, "iterator-type", fn=rot, detail="iterator type %s" % ity)
+            c = mv_sites[0]
+            item = None
+            for x in walk(c.arg(0)):
+                if x[0] == "as" and x[2] == "Some" and strip(x[1])[0] == "call" and strip(x[1])[1] == NEXT:
+                    item = ("field", x, "0")
+            src, dst = index_of(c.arg(0)), index_of(c.arg(1))
+            r.require(src is not None and dst is not None, "paths-from-pattern", fn=rot, site=c.at, detail="src/dst are pattern.replace(\"{}\", index)")
+            if src and dst:
+                vars_ = {"i": deep_strip(item)} if item else {}
+                ls, ld = linear(src[0], vars_), linear(dst[0], vars_)
+                r.require(ls == {"i": 1}, "src-is-index-i", fn=rot, site=c.at, detail="source index %s -> %s" % (show(src[0], 4), ls))
+                r.require(ld == {"i": 1, 1: 1}, "dst-is-index-i-plus-1", fn=rot, site=c.at, detail="destination index %s -> %s" % (show(dst[0], 4), ld))
+                patt = ("param", pr["pattern"])
+                r.require(src[1] == patt and dst[1] == patt and src[2] == ("const", "str", "{}") and dst[2] == ("const", "str", "{}"), "same-pattern-and-placeholder", fn=rot,
+                          detail="both sides substitute \"{}\" in the roller's pattern")
+                r.require(any(x[0] == "call" and x[1] == EXPAND for x in walk(c.arg(0))) and any(x[0] == "call" and x[1] == EXPAND for x in walk(c.arg(1))), "both-expanded", fn=rot,
+                          detail="src and dst pass through expand_env_vars")
+            r.require(common.result_is_checked(rot, c), "move-error-propagated", fn=rot, site=c.at, detail="a failing shift step aborts the rotation with its error")
+
